@@ -65,8 +65,12 @@ func verifyBundle(r io.ReaderAt, files zipFiles, sig *AppxSignature, skipDigests
 	}
 	sig.Bundled = make(map[string]*AppxSignature)
 	publisher := x509tools.FormatPkixName(sig.Signature.Certificate.RawSubject, x509tools.NameStyleMsOsco)
-	if bundle.Identity.Publisher != publisher {
-		return fmt.Errorf("bundle manifest: publisher identity mismatch:\nexpected: %s\nactual: %s", publisher, bundle.Identity.Publisher)
+	actual, err := publisherAttr(blob, "Bundle/Identity")
+	if err != nil {
+		return fmt.Errorf("bundle manifest: %w", err)
+	}
+	if actual != publisher {
+		return fmt.Errorf("bundle manifest: publisher identity mismatch:\nexpected: %s\nactual: %s", publisher, actual)
 	}
 	for _, zf := range files {
 		if !strings.HasSuffix(zf.Name, ".appx") {
